@@ -199,6 +199,8 @@ def gen_cases(rng, tier):
         vec = [[a, b, rng.randint(-2, 2) or 1, rng.randint(-2, 2)] for a, b in rng.sample(basis, min(len(basis), 14))]
         cls = rng.choice(['restricted', 'restricted', 'sso', 'dc2', 'diag'])
         rank = 1 if cls in ('diag',) else (2 if cls == 'dc2' else rng.choice([1, 2, 2, 3]))
+        if cls == 'sso':
+            rank = min(rank, 2)          # a dense rank-3 spin-orbital tensor on 20-24 spin orbitals is 10^8 entries
         ham = gen_ham(rng, cls, rank, norb, 'sparse', rng.random() < 0.4, rng.random() < 0.5)
         ham['entries'] = ham['entries'][:8]
         if cls == 'sso':
